@@ -5,9 +5,9 @@
    names they own, the scripted SubjectAccessReview policy of each incarnation, the virtual time); it is
    shared by the specification.
    [hstate]: the world plus the state of pkg/gateway/authorization/webhook/subjectaccessreview.go
-   MultiClusterSubjectAccessReviewAuthorizer: one LRU-expire cache per HOST, created by the first
-   Authorize for that host, dropped by a goroutine when the ClusterInfo that served that first call is
-   stopped; entries keyed by the SubjectAccessReview spec (here: requestor, user to impersonate),
+   MultiClusterSubjectAccessReviewAuthorizer (as repaired by 95b80b4): one LRU-expire cache per
+   (HOST, cluster object serving that host now), created by the first Authorize for that pair, dropped by a
+   goroutine when that cluster is stopped; entries keyed by the SubjectAccessReview spec (here: requestor, user to impersonate),
    valid while now <= expiry; allowed answers live attl, denied answers dttl, errors are answered
    "deny" and not cached.  (The goroutine is modelled as running at the deletion; the harness waits
    for it.) *)
@@ -115,9 +115,19 @@ Fixpoint eget (q : question) (e : entries) : option (bool * Z) :=
 Definition edel (q : question) (e : entries) : entries := filter (fun kv => negb (q_eqb (fst kv) q)) e.
 Definition eset (q : question) (v : bool * Z) (e : entries) : entries := (q, v) :: edel q e.
 
+Definition ckey := (string * Z)%type.                          (* host, incarnation serving it *)
+Definition ckey_eqb (a b : ckey) : bool := (String.eqb (fst a) (fst b) && Z.eqb (snd a) (snd b))%bool.
+Fixpoint cget (k : ckey) (l : list (ckey * entries)) : option entries :=
+  match l with
+  | [] => None
+  | (x, v) :: r => if ckey_eqb x k then Some v else cget k r
+  end.
+Definition cset (k : ckey) (v : entries) (l : list (ckey * entries)) : list (ckey * entries) :=
+  (k, v) :: filter (fun kv => negb (ckey_eqb (fst kv) k)) l.
+
 Record hstate := mkHState {
   s_world : world;
-  s_caches : list (string * (Z * entries));        (* host -> (incarnation whose stop drops the cache, entries) *)
+  s_caches : list (ckey * entries);
 }.
 Definition hstate0 : hstate := mkHState world0 [].
 
@@ -129,23 +139,23 @@ Definition do_request (attl dttl : Z) (s : hstate) (host requestor imp : string)
       if String.eqb imp EmptyString then (s, mkHObs true 200 [(id, [requestor])] [])
       else
         let q := (requestor, imp) in
-        let ce := match aget host (s_caches s) with Some ce => ce | None => (id, []) end in
-        let hit := match eget q (snd ce) with
+        let e := match cget (host, id) (s_caches s) with Some e => e | None => [] end in
+        let hit := match eget q e with
                    | Some (allowed, exp) => if Z.leb (w_now w) exp then Some allowed else None
                    | None => None
                    end in
         match hit with
         | Some allowed =>
-            (mkHState w (aset host ce (s_caches s)),
+            (mkHState w (cset (host, id) e (s_caches s)),
              if allowed then mkHObs true 200 [(id, [imp])] [] else mkHObs true 403 [] [])
         | None =>
             let a := answer_of p q in
             let e' := match a with
-                      | AAllow => eset q (true, w_now w + attl) (snd ce)
-                      | ADeny => eset q (false, w_now w + dttl) (snd ce)
-                      | AError => edel q (snd ce)
+                      | AAllow => eset q (true, w_now w + attl) e
+                      | ADeny => eset q (false, w_now w + dttl) e
+                      | AError => edel q e
                       end in
-            (mkHState w (aset host (fst ce, e') (s_caches s)),
+            (mkHState w (cset (host, id) e' (s_caches s)),
              match a with
              | AAllow => mkHObs true 200 [(id, [imp])] [(id, q, a)]
              | _ => mkHObs true 403 [] [(id, q, a)]
@@ -159,7 +169,7 @@ Definition hstep (attl dttl : Z) (s : hstate) (o : hop) : hstate * hobs :=
   | HDelete c =>
       let (w', done) := wstep (s_world s) o in
       let caches' := match aget c (w_live (s_world s)) with
-                     | Some (id, _) => filter (fun hc => negb (Z.eqb (fst (snd hc)) id)) (s_caches s)
+                     | Some (id, _) => filter (fun kc => negb (Z.eqb (snd (fst kc)) id)) (s_caches s)
                      | None => s_caches s
                      end in
       (mkHState w' caches', mkHObs done 0 [] [])
